@@ -3,7 +3,7 @@
 # /repo: a scratch copy of /verif whose harness crates depend on the worktree (which has the patch applied).
 # Lets seeded runs proceed while other checks run against /repo.  The copy is removed afterwards.
 N=$1; W=$2; shift; shift
-C=/tmp/vseed-$N
+C=/tmp/vseed-$N-$$
 rm -rf $C; mkdir -p $C
 rsync -a --exclude .git --exclude work --exclude replays --exclude 'harness-src/target' --exclude 'harness-win/target' /verif/ $C/
 sed -i "s#path = \"/repo\"#path = \"$W\"#" $C/harness/Cargo.toml $C/harness-src/Cargo.toml $C/harness-win/Cargo.toml
